@@ -247,13 +247,16 @@ pub struct RunCfg {
     pub panic_seed: u64,
     /// closure cap (unbounded models)
     pub closure_cap: usize,
+    /// watchdog of this run in ms (0 = the caller's default)
+    #[serde(default)]
+    pub watchdog_ms: u64,
 }
 impl RunCfg {
     pub fn new(model: ModelSpec, strategy: &str, threads: usize) -> RunCfg {
         RunCfg {
             model, strategy: strategy.into(), threads, finish_when: FwSpec::all(), target_state_count: None,
             target_max_depth: None, timeout_ms: None, perturb: 0, sim_seed: 0, chooser: "uniform".into(), script: vec![],
-            record: true, panic_seed: 0, closure_cap: 2_000_000,
+            record: true, panic_seed: 0, closure_cap: 2_000_000, watchdog_ms: 0,
         }
     }
 }
@@ -627,7 +630,8 @@ pub fn run_all(cfgs: &[RunCfg], watchdog: Duration, budget: usize) -> Vec<ChildR
                         g = cv.wait(g).unwrap();
                     }
                 }
-                let r = spawn_child(&cfgs[i], watchdog);
+                let wd = if cfgs[i].watchdog_ms > 0 { Duration::from_millis(cfgs[i].watchdog_ms) } else { watchdog };
+                let r = spawn_child(&cfgs[i], wd);
                 results.lock().unwrap()[i] = Some(r);
                 let mut g = state.lock().unwrap();
                 g.1 -= cfgs[i].threads.min(budget);
